@@ -1,0 +1,21 @@
+//go:build verif
+
+package ntske
+
+// Test hook for the external verification harness (build tag "verif"), add-only.
+
+import "time"
+
+// AgeV makes the provider d older: afterwards it is as if every key had been
+// generated d earlier than it was. Lets a harness that cannot control the clock
+// of a running listener move it past key renewal and expiry.
+func (p *Provider) AgeV(d time.Duration) {
+	p.mu.Lock()
+	defer p.mu.Unlock()
+	p.generatedAt = p.generatedAt.Add(-d)
+	for id, k := range p.keys {
+		k.Validity.NotBefore = k.Validity.NotBefore.Add(-d)
+		k.Validity.NotAfter = k.Validity.NotAfter.Add(-d)
+		p.keys[id] = k
+	}
+}
